@@ -692,7 +692,8 @@ func reachWalkEnv(b *ssa.BasicBlock, k int, target, stop func(ssa.Instruction) b
 				if !ok {
 					break
 				}
-				if from == nil || basicKind(phi.Type()) != types.Bool {
+				nilable := isNilable(phi.Type())
+				if from == nil || (basicKind(phi.Type()) != types.Bool && !nilable) {
 					continue
 				}
 				for i, p := range b.Preds {
@@ -704,6 +705,13 @@ func reachWalkEnv(b *ssa.BasicBlock, k int, target, stop func(ssa.Instruction) b
 						v, known = cb, true
 					} else if ev, ok := env[phi.Edges[i]]; ok {
 						v, known = ev, true
+					} else if nilable {
+						// for slices, pointers, maps …: true stands for "not nil"
+						if isNilConst(phi.Edges[i]) {
+							v, known = false, true
+						} else if lenPositiveOnEdge(from, b, phi.Edges[i]) {
+							v, known = true, true
+						}
 					}
 					if !copied {
 						ne = make(map[ssa.Value]bool, len(env)+1)
@@ -759,6 +767,20 @@ func reachWalkEnv(b *ssa.BasicBlock, k int, target, stop func(ssa.Instruction) b
 				} else {
 					succs = b.Succs[1:2]
 				}
+			} else if cmp, ok := c.(*ssa.BinOp); ok && (cmp.Op == token.EQL || cmp.Op == token.NEQ) {
+				// x != nil / x == nil with the nil-ness of x known from the way control came
+				x, y := cmp.X, cmp.Y
+				if isNilConst(x) {
+					x, y = y, x
+				}
+				if nn, ok := ne[x]; ok && isNilConst(y) && isNilable(x.Type()) {
+					truth := nn == (cmp.Op == token.NEQ)
+					if truth != neg {
+						succs = b.Succs[:1]
+					} else {
+						succs = b.Succs[1:2]
+					}
+				}
 			}
 		}
 		for _, s := range succs {
@@ -789,6 +811,40 @@ func reachWalkEnv(b *ssa.BasicBlock, k int, target, stop func(ssa.Instruction) b
 		env0[kk] = x
 	}
 	return walk(b, nil, k, env0, 0)
+}
+
+func isNilable(t types.Type) bool {
+	switch t.Underlying().(type) {
+	case *types.Slice, *types.Pointer, *types.Map, *types.Chan, *types.Interface, *types.Signature:
+		return true
+	}
+	return false
+}
+
+// lenPositiveOnEdge: the branches dominating the edge pred->succ say that len(v) > 0 (so v is not nil).
+func lenPositiveOnEdge(pred, succ *ssa.BasicBlock, v ssa.Value) bool {
+	if _, ok := v.Type().Underlying().(*types.Slice); !ok {
+		return false
+	}
+	for _, f := range append(directFacts(pred), edgeFactOf(pred, succ)...) {
+		c, ok := normFact(f)
+		if !ok {
+			continue
+		}
+		x, y, op := c.X, c.Y, c.Op
+		if _, isC := constInt(x); isC {
+			x, y, op = y, x, swapOp(op)
+		}
+		k, isK := constInt(y)
+		if !isK || !isLenOf2(x, v) {
+			continue
+		}
+		switch {
+		case op == token.NEQ && k == 0, op == token.GTR && k >= 0, op == token.GEQ && k >= 1:
+			return true
+		}
+	}
+	return false
 }
 
 func isReturn(i ssa.Instruction) bool { _, ok := i.(*ssa.Return); return ok }
